@@ -30,6 +30,14 @@ def build_tree(base: Path, node, listing: dict) -> None:
         build_tree(d, c, listing)
 
 
+def path_of(o) -> list:
+    out = []
+    while o is not None:
+        out.insert(0, o.name)
+        o = o.parent
+    return out
+
+
 def do_fs(case) -> dict:
     from pydoctor import model
     d = Path(tempfile.mkdtemp(prefix='verif_c18fs_'))
@@ -58,7 +66,7 @@ def do_fs(case) -> dict:
         pathlib.Path.iterdir = iterdir
 
         def analyze(self, modpath, modname, parentPackage=None, is_package=False):
-            parent = parentPackage.fullName().split('.') if parentPackage is not None else []
+            parent = path_of(parentPackage)
             events.append([parent, modname, 1 if is_package else 0])
             return orig_analyze(self, modpath, modname, parentPackage, is_package)
         model.System.analyzeModule = analyze
@@ -70,7 +78,7 @@ def do_fs(case) -> dict:
         except model.SystemBuildingError:
             events.append([-1])
         return {'events': events,
-                'unproc': [[m.fullName().split('.'), 1 if isinstance(m, model.Package) else 0]
+                'unproc': [[path_of(m), 1 if isinstance(m, model.Package) else 0]
                            for m in system.unprocessed_modules],
                 'roots': [o.name for o in system.rootobjects],
                 'rootkinds': [o.kind.value for o in system.rootobjects]}
